@@ -265,7 +265,8 @@ def cmd_run(shard, nshards):
 
 
 FULL = {
-    "curtsies/formatstring.py": ["C01", "C04", "C05", "C06", "C09", "C10", "C11", "C13", "C14", "C15", "C16", "C17", "C19", "C02", "C07"],
+    # (second phase for formatstring.py: the checks most likely to notice what the function-specific ones of phase 1 did not)
+    "curtsies/formatstring.py": ["C13", "C04", "C15", "C19", "C10", "C14"],
     "curtsies/formatstringarray.py": ["C04", "C02", "C07"],
     "curtsies/escseqparse.py": ["C05", "C17", "C01", "C14"],
     "curtsies/events.py": ["C03", "C20", "C08"],
@@ -292,7 +293,8 @@ def cmd_phase2(shard, nshards):
     if os.path.exists(resf):
         for l in open(resf):
             done.add(json.loads(l)["index"])
-    todo = [i for i, r in sorted(res.items()) if r["status"] in ("survived", "harness_error_or_timeout") and i not in done]
+    skip = os.environ.get("AUTOMUT_SKIP_FILE", "")
+    todo = [i for i, r in sorted(res.items()) if r["status"] in ("survived", "harness_error_or_timeout") and i not in done and muts[i]["file"] != skip]
     scratch = tempfile.mkdtemp(prefix="curtsies-automut2-")
     try:
         shutil.copytree(REPO, scratch, dirs_exist_ok=True, ignore=shutil.ignore_patterns(".git", "__pycache__", "*.pyc"))
